@@ -69,7 +69,7 @@ static void f_manage_records(uint8_t* start, size_t size, bool ok, mi_arena_id_t
 // `head_pages` pages after an aligned address (misaligned unless 0) and its size is not a multiple of the block size;
 // 4 blocks of slack after the region stay mapped so that an out-of-bounds hand-out is observable instead of fatal.
 static myarena_t* make_managed(size_t blocks, size_t head_pages, size_t tail_bytes, bool exclusive) {
-  size_t msize = (blocks + 6) * BLK;
+  size_t msize = (blocks + (blocks > 60 ? 70 : 6)) * BLK;   // two-field arenas: slack up to the end of the second bitmap field
   uint8_t* map = map_noreserve(msize);
   uint8_t* al = (uint8_t*)_mi_align_up((uintptr_t)map, BLK);
   uint8_t* region; size_t rsize;
@@ -240,8 +240,9 @@ static void scenario_manage(void) {
     if (make_managed(blocks, head, tail, prng_below(&G, 2) == 0) != NULL) made++;
   }
   // arenas with more than 64 blocks (two bitmap fields): sizes around the field boundary
-  size_t big[] = { 63, 64, 65, 70 };
-  for (int i = 0; i < (THOROUGH ? 4 : 2); i++) if (make_managed(big[i], 1 + prng_below(&G, 8191), 1 + prng_below(&G, BLK - 1), false) != NULL) made++;
+  // (65 first: the left-over bits of a SECOND field are what a one-field arena cannot show -- seed C15c)
+  size_t big[] = { 65, 64, 63, 70, 127, 129 };
+  for (int i = 0; i < (THOROUGH ? 6 : 3); i++) if (make_managed(big[i], 1 + prng_below(&G, 8191), 1 + prng_below(&G, BLK - 1), false) != NULL) made++;
   printf("T count %s arenas_made %d\n", SCN, made);
   dump_arenas();
 }
@@ -399,7 +400,9 @@ static void scenario_tryreclaim(void) {
 
 // arena exhaustion: a bound heap must get NULL; the default heap may use shared arenas and the OS
 static void scenario_exhaust(void) {
-  myarena_t* E = make_managed(1 + prng_below(&G, 3), 1 + prng_below(&G, 8191), 1 + prng_below(&G, BLK - 1), true);
+  // odd repetitions: an exclusive arena of 65..84 blocks (two bitmap fields, left-over bits in the second) filled to its very end
+  int two_fields = ((SCN[strlen(SCN) - 1] - '0') % 2 == 1);
+  myarena_t* E = make_managed(two_fields ? 65 + prng_below(&G, 20) : 1 + prng_below(&G, 3), 1 + prng_below(&G, 8191), 1 + prng_below(&G, BLK - 1), true);
   myarena_t* S = make_managed(2, 1 + prng_below(&G, 8191), 1 + prng_below(&G, BLK - 1), false);
   myarena_t* R = make_reserved(2 * BLK + 4096, true);
   if (!E || !S || !R) return;
